@@ -29,7 +29,6 @@ NPar(op) == IF op \in {"rx", "ry", "rz", "rzz", "crx", "cry", "crz"} THEN 1 ELSE
 \* ---- observations
 Mask(S, n) == FoldLeft(LAMBDA acc, q : 2 * acc + (IF q \in S THEN 1 ELSE 0), 0, [q \in 1..n |-> q])
 SubsetOf(mask, n) == {q \in 1..n : (mask \div 2^(n - q)) % 2 = 1}
-KeepIdx(b, S, n) == FoldLeft(LAMBDA acc, q : IF q \in S THEN 2 * acc + QBit(b, q, n) ELSE acc, 0, [q \in 1..n |-> q])
 Marginal(v, S, n) == [o \in 1..2^Cardinality(S) |-> OSum([r \in 1..2^n |-> IF KeepIdx(r - 1, S, n) = o - 1 THEN OMul(v[r], OConj(v[r])) ELSE OZero])]
 Inner(a, b) == OSum([r \in 1..Len(a) |-> OMul(OConj(a[r]), b[r])])
 EmptyObs == [n |-> 0, psi |-> <<>>, e |-> 0, marg |-> <<>>, xy |-> OZero, u |-> <<>>, ue |-> 0, unitary |-> TRUE]
